@@ -62,7 +62,7 @@ func TestC18BinaryDrainAfterAcceptFault(t *testing.T) {
 		W := time.Duration(rapid.IntRange(600, 1500).Draw(t, "W_ms")) * time.Millisecond
 		need := time.Duration(rapid.IntRange(20, 50).Draw(t, "inflight_pct")) * W / 100
 		proto := rapid.SampledFrom([]string{"https+tcp+sni", "https+tcp+sni", "https"}).Draw(t, "listener")
-		fault := rapid.IntRange(0, 3).Draw(t, "accept-fault-earlier") > 0
+		fault := rapid.IntRange(0, 3).Draw(t, "no-accept-fault-earlier") != 3
 		up := httptest.NewServer(http.HandlerFunc(func(w http.ResponseWriter, r *http.Request) {
 			if r.URL.Path == "/slow" {
 				time.Sleep(need)
